@@ -1,5 +1,49 @@
 /-
   C20 — Object identifiers round-trip between text, arcs and encoding.
+
+  All theorems are for ALL inputs (no size bounds); the model is `Bcder.Model.Oid` (src/oid.rs), the
+  reference is `Bcder.Spec.Values` (`arcsToContent`, `subIds`, `subIdValue`, `contentToArcs`,
+  `decimal`, `dotted`, `parseArc`, `splitOn`, `parseOid`) and `Spec.base128`.
+
+  1. text → encoding
+     `fromStr_eq_spec`       for EVERY octet string `s`: `Oid.fromStr s = Spec.parseOid s` (the X.690
+                             encoding of the arcs, or an error; `fromStr` is total, so never a panic).
+                             Sub-lemmas `splitDot_eq`, `parseU32_eq` (early-abort loop = check digits,
+                             then value, then range), `encodeItem_eq` (v < 2^32), `parseAll_eq`.
+  2. acceptance
+     `checkContent_iff`, `checkContent_iff'`   accepted ⇔ non-empty and last octet < 128;
+     `checkContent_eq_subIds`                  = the reference splitter succeeds;
+     `fromPrimitive_run`, `skipPrimitive_run`, `skipIfPrimitive_run` (+ `…_exhausted` with the
+     framework's exhaustion check, `take_skip_alike`): on the content window `c` of a primitive value,
+     taking returns exactly `c` / skipping returns unit, window consumed, iff `checkContent c`, else
+     `Err::content`; match-and-skip succeeds iff the content octets equal the expected ones.
+  3. iterator and numeric conversion
+     `components_eq`, `components_accepted`  on every accepted content the iterator ends without panic
+                             and within fuel and yields the reference sub-identifiers, the first twice;
+     `components_reject`, `components_ok_iff`  on non-empty rejected content it panics (as in Rust);
+     `toU32_eq`              EVERY non-empty component (minimal or not): "too large" (more than 5
+                             octets, or 5 with bits 5–7 of the first set) or exactly the arc of the
+                             sub-identifier value — never a wrong number;
+     `toU32_base128`         minimal sub-identifier of ANY v: `some (arc)` if v < 2^32, else `none`;
+     `subIdValue_base128`, `base128_isSubId`, `subIds_arcs`, `contentToArcs_arcs` (reference sanity);
+     `components_arcs`, `numbers_arcs`, `numbers_arcs_fit`  arcs → encoding → iterator/`to_u32` gives
+                             back the arcs (and "too large" for those not fitting 32 bits).
+  4. display
+     `decimal_eq`            the model's `toString`-based decimal text = reference decimal text;
+     `display_numbers`       every content: display = dotted text of the reported numbers;
+     `display_arcs`          valid arcs fitting 32 bits: `display (arcsToContent arcs) = dotted arcs`.
+  5. round trips
+     `fromStr_some`, `display_fromStr`   a successful parse yields accepted content whose arcs,
+                             numbers and displayed text are those of the input (canonical text);
+     `fromStr_dotted`        parsing the canonical text of valid arcs gives their encoding;
+     `fromStr_display_fromStr`  parse ∘ display ∘ parse = parse.
+
+  NOT covered: the `PartialEq`/`Eq`/`Hash` impls of `Oid` (the model has no item for them: in the
+  Rust they delegate to `self.0.as_ref()`, the content octets, which in the model IS the value
+  returned by `fromPrimitive_run`, so only match-and-skip is a theorem here); non-minimal sub-identifiers (leading 0x80) are covered by
+  `toU32_eq` and `components_eq` but are outside `toU32_base128` / the round trips; `Oid::skip_if`
+  around the closure (tag matching) belongs to C02/C12; the connection of `runG0` to arbitrary
+  sources is C07.
 -/
 import Bcder.Model.Oid
 import Bcder.Spec.Values
@@ -1525,6 +1569,17 @@ example : Oid.components [0x2A, 0x86, 0x48, 0x86, 0xF7, 0x0D] =
   rw [e1, e2.1] at h
   simp only [List.map_cons, List.map_nil, e2.2.1, e2.2.2] at h
   exact h
+-- acceptance by taking / skipping on a concrete window (3 content octets, then other data)
+example : runG0 Oid.fromPrimitive (St ([0x2A, 0x86, 0x48] ++ [0xFF]) (some 3)) =
+    .ok ([0x2A, 0x86, 0x48], St [0xFF] (some 0)) := fromPrimitive_run [0x2A, 0x86, 0x48] [0xFF]
+example : runG0 Oid.fromPrimitive (St ([0x2A, 0x86] ++ [0x48]) (some 2)) = .error .content :=
+  fromPrimitive_run [0x2A, 0x86] [0x48]
+example : runG0 Oid.skipPrimitive (St ([0x2A, 0x86] ++ [0x48]) (some 2)) = .error .content :=
+  skipPrimitive_run [0x2A, 0x86] [0x48]
+example : runG0 (Oid.skipIfPrimitive [0x2A, 0x03]) (St ([0x2A, 0x03] ++ []) (some 2)) = .ok ((), St [] (some 0)) :=
+  skipIfPrimitive_run [0x2A, 0x03] [0x2A, 0x03] []
+example : runG0 (Oid.skipIfPrimitive [0x2A, 0x03]) (St ([0x2A, 0x04] ++ []) (some 2)) = .error .content :=
+  skipIfPrimitive_run [0x2A, 0x03] [0x2A, 0x04] []
 -- acceptance: the last octet decides
 example : Oid.checkContent [0x2A, 0x86, 0x48] = true ∧ Oid.checkContent [0x2A, 0x86] = false ∧
     Oid.checkContent [] = false := by decide
